@@ -194,6 +194,9 @@ def plan(prop):
             obs.append((prag, lambda ctx, nu=nu, wp=wp: po.ob_checker_assignment(ctx, nu, wp)))
         for lay in ((('d',), ('p', 'd'), ('d', 'd'), ('p', 'p', 'd')) if Q else (('d',), ('p',), ('s',), ('r',), ('p', 'd'), ('d', 'd'), ('p', 'p'), ('p', 'p', 'd'), ('p', 'd', 'd'), ('d', 's'), ('p', 'd', 'r', 's'))):
             obs.append((prag, lambda ctx, lay=lay: po.ob_checker_demand(ctx, lay)))
+    if prop == 'C08':
+        import ieee_obligations as io
+        obs.append(('rosomaxa', lambda ctx: io.ob_rosomaxa_phase(ctx, (2, 3, 4, 8) if Q else (2, 3, 4, 5, 6, 7, 8, 16, 64))))
     if prop == 'C18':
         import ieee_obligations as io
         obs.append(('rosomaxa', lambda ctx: io.ob_max_generation(ctx)))
